@@ -148,7 +148,7 @@ def read_src(rel):
 def locate(rel, kind, qual):
     src = read_src(rel)
     try:
-        res = rustlex.find_item(src, kind, qual)
+        res = rustlex.find_item(src, kind, qual.replace('+', ' '))   # `Trait+for+Type::name` names a trait-impl method
     except ValueError as e:
         raise ExtractError('lexing %s failed: %s' % (rel, e))
     # R9: drop items under non-default cargo features
@@ -1392,6 +1392,8 @@ def emit_fn(d, unit, report, canaries):
         sig = add_params(sig, 'Tracked(outbox): Tracked<&mut Outbox>')
     if 'R6q' in rules and d.kind == 'fn':
         sig = add_params(sig, 'Tracked(sig): Tracked<&mut Signals>')
+    if 'R6c' in rules and d.kind == 'fn':
+        sig = add_params(sig, 'Tracked(cnt): Tracked<&mut SlotCounter>')
     for name, argstr, text in d.sections:
         if name == 'sigadd':
             sig = add_params(sig, argstr)
@@ -1453,6 +1455,8 @@ def emit_fn(d, unit, report, canaries):
         body = rule_r6_body(body, counts)
     if 'R6q' in rules:
         body = rule_r6_body(body, counts, names=('quit\\.store',), extra='Tracked(sig)')
+    if 'R6c' in rules:
+        body = rule_r6_body(body, counts, names=('conns_count\\.fetch_add', 'conns_count\\.fetch_sub'), extra='Tracked(cnt)')
     for r in rules:
         if r in RULES_BODY:
             body = RULES_BODY[r](body, counts)
